@@ -235,6 +235,8 @@ class BuildWorld(DBWorld):
     def execvp(self, eng, prog, argv, sp):
         def cstr(x):
             x = deref_all(x)
+            if isinstance(x, Enum) and x.ty == 'Cow':        # Vec<Cow<CStr>> (start_deps_unlocked)
+                x = deref_all(x.f[0])
             items = list(x.items)
             if items and items[-1] == 0:
                 items = items[:-1]
